@@ -389,6 +389,13 @@ def _mk_funcs():
         return mr.util.whiten(k, c)
     cov = np.array([[2.0, 0.5j, 0], [-0.5j, 1.5, 0.2], [0, 0.2, 1.0]])
     reg("mri.util.whiten", 5, lambda v: (_whiten, [_arr([3, 4, 2], *_v(v)), cov.copy()], ()))
+    # degenerate argument shapes: a single coil, one sample per coil, plain 2-D [coils, samples] data (in every layout: an
+    # array that is both C- and Fortran-contiguous, or Fortran-ordered, is what in-place LAPACK/BLAS wrappers may overwrite)
+    reg("mri.util.whiten.1coil", 5, lambda v: (_whiten, [_arr([1, 6], *_v(v)), np.array([[2.0 + 0j]])], ()))
+    reg("mri.util.whiten.1sample", 5, lambda v: (_whiten, [_arr([3, 1], *_v(v)), cov.copy()], ()))
+    reg("mri.util.whiten.2d", 5, lambda v: (_whiten, [_arr([3, 5], *_v(v)), cov.copy()], ()))
+    reg("mri.util.get_cov.1coil", 5, lambda v: (mr.util.get_cov, [_arr([1, 6], *_v(v))], ()))
+    reg("util.rss.1coil", 5, lambda v: (lambda x: sp.rss(x, axes=(0,)), [_arr([1, 5], *_v(v))], ()))
     reg("mri.util.tseg_off_res_b_ct", 1, lambda v: (mr.util.tseg_off_res_b_ct, [_arr([4, 4], np.float64) * 10, 4, 2, 1e-3, 8e-3], ()))
 
     def _apply_tseg(x, c, fwd):
